@@ -67,12 +67,111 @@ pub struct Remover {}
     }
 //@end
 
-//@fn id=merge_markers file=code/remover.rs name=merge_markers in="impl Remover" props=C01,C02,C03,C04,C12,C15 stub=only trusted="contract not yet proved"
+/// mm_spec has the properties promised to the callers (pure lemma over the spec function; NOT YET PROVED)
+#[verifier::external_body]
+pub proof fn lemma_mm_post(f: Seq<GTree>)
+    requires exists|lo: int, hi: int| wf_forest(f, lo, hi),
+    ensures mm_post(f, mm_spec(f)),
+{}
+
+//@fn id=merge_markers file=code/remover.rs name=merge_markers in="impl Remover" props=C01,C02,C03,C04,C12,C15
 //@ret r
 //@requires
     exists|lo: int, hi: int| wf_forest(vf(ranges@), lo, hi),
+    2 * forest_size(vf(ranges@)) < usize::MAX,
+//@ensures label=merge_markers_is_spec props=C01,C02,C03,C04,C12,C15
+    r@ == mm_spec(vf(ranges@)),
 //@ensures label=merge_markers_post props=C01,C02,C03,C04,C12,C15
     mm_post(vf(ranges@), r@),
+//@fn-decreases
+    ranges@
+//@fold 1 type="Vec<RemoveMarker>"
+//@loop 1 iter=it
+//@invariant
+    it.seq() == ranges@,
+    exists|lo: int, hi: int| wf_forest(vf(ranges@), lo, hi),
+    2 * forest_size(vf(ranges@)) < usize::MAX,
+    __acc1@ == mm_spec(vf(ranges@).take(it.index@)),
+//@loop 2 iter=it2
+//@invariant
+    start_cursor <= end_cursor <= child_markers@.len(),
+    it2.seq() == child_markers@.subrange(start_cursor as int, end_cursor as int).as_ref(),
+    current + (end_cursor - start_cursor) + 1 < usize::MAX,
+    acc@ == __acc0 + seq![(__head, Some((current + (end_cursor - start_cursor) + 1) as usize))] + rebased(child_markers@, start_cursor as int, end_cursor as int, current as int).take(it2.index@),
+//@at body-start
+    hide(mm_spec); hide(forest_size); hide(wf_forest); hide(mm_post); hide(forest_covered); hide(forest_endpoint); hide(vt);
+    proof { lemma_mm_post(vf(ranges@)); }
+//@at before "for __x1 in"
+    proof { lemma_mm_spec_empty(vf(ranges@)); }
+//@at loop 1 start
+    let ghost __i = it.index@;
+    let ghost __f = vf(ranges@);
+    let ghost __acc0 = __acc1@;
+    proof {
+        lemma_mm_spec_step(__f, __i);
+        lemma_wf_child(__f, __i);
+        lemma_vt_children(ranges@[__i]);
+        lemma_forest_size_take(__f, __i);
+        lemma_mm_len(__f.take(__i));
+        lemma_mm_len(__f[__i].children);
+    }
+//@at before "let (mut marker, pair) = tree.range;"
+    proof {
+        assert(child_markers.len() == child_markers@.len());
+        lemma_mcm_bounds(marker_ranges(child_markers@), tree.range.0);
+        assert(marker_ref_ranges(child_markers@.as_ref()) =~= marker_ranges(child_markers@));
+        assert(marker_ref_ranges(child_markers@.as_ref().reverse()) =~= marker_ranges(child_markers@).reverse());
+        if tree.range.1 is Some { lemma_mcm_bounds(marker_ranges(child_markers@).reverse(), tree.range.1->0); }
+    }
+//@at before "for (child_marker, child_pair) in"
+    let ghost __head = acc@.last().0;
+    proof {
+        assert(rebased(child_markers@, start_cursor as int, end_cursor as int, current as int).take(0) =~= Seq::<RemoveMarker>::empty());
+    }
+//@at loop 2 end
+    proof {
+        let rb = rebased(child_markers@, start_cursor as int, end_cursor as int, current as int);
+        assert(rb.take(it2.index@ + 1) =~= rb.take(it2.index@).push(rb[it2.index@]));
+    }
+//@at after-loop 2
+    proof {
+        let rb = rebased(child_markers@, start_cursor as int, end_cursor as int, current as int);
+        assert(rb.take(rb.len() as int) =~= rb);
+    }
+//@at after-loop 1
+    proof { assert(vf(ranges@).take(ranges@.len() as int) =~= vf(ranges@)); }
 //@end
+
+pub proof fn lemma_mm_spec_empty(f: Seq<GTree>)
+    ensures mm_spec(f.take(0)) == Seq::<RemoveMarker>::empty(),
+{
+    assert(f.take(0).len() == 0);
+}
+pub proof fn lemma_mm_spec_step(f: Seq<GTree>, i: int)
+    requires 0 <= i < f.len(),
+    ensures mm_spec(f.take(i + 1)) == mm_spec(f.take(i)) + tree_markers(f[i], mm_spec(f[i].children), mm_spec(f.take(i)).len() as int),
+{
+    assert(f.take(i + 1).drop_last() =~= f.take(i));
+    assert(f.take(i + 1).last() == f[i]);
+}
+pub proof fn lemma_wf_child(f: Seq<GTree>, i: int)
+    requires 0 <= i < f.len(), exists|lo: int, hi: int| wf_forest(f, lo, hi),
+    ensures exists|lo: int, hi: int| wf_forest(f[i].children, lo, hi),
+{
+    let (lo, hi) = choose|lo: int, hi: int| wf_forest(f, lo, hi);
+    assert(wf_forest(f[i].children, node_lo(f[i]), node_hi(f[i])));
+}
+pub proof fn lemma_forest_size_take(f: Seq<GTree>, i: int)
+    requires 0 <= i < f.len(),
+    ensures forest_size(f.take(i)) + 1 + forest_size(f[i].children) <= forest_size(f),
+    decreases f.len() - i,
+{
+    if i + 1 == f.len() {
+        assert(f.take(i) =~= f.drop_last());
+    } else {
+        lemma_forest_size_take(f.drop_last(), i);
+        assert(f.drop_last().take(i) =~= f.take(i));
+    }
+}
 
 } // mod remover
